@@ -251,13 +251,19 @@ class IntroducerClient(service.Service, Referenceable):
                 ann, key_s = unsign_from_foolscap(ann_t)
                 # key is "v0-base32abc123"
                 precondition(isinstance(key_s, bytes), key_s)
+                self._process_announcement(ann, key_s)
             except BadSignature:
                 self.log("bad signature on inbound announcement: %s" % (ann_t,),
                          parent=lp, level=log.WEIRD, umid="ZAU15Q")
                 # process other announcements that arrived with the bad one
                 continue
-
-            self._process_announcement(ann, key_s)
+            except Exception as e:
+                # unsigned, undecodable or otherwise malformed: likewise, do
+                # not let it stop the announcements that arrived with it
+                self.log("ignoring malformed inbound announcement (%r): %s"
+                         % (e, ann_t,),
+                         parent=lp, level=log.WEIRD, umid="ZAU15R")
+                continue
 
     def _process_announcement(self, ann, key_s):
         precondition(isinstance(key_s, bytes), key_s)
